@@ -64,6 +64,11 @@ CLAIMED = {
         text="Decides: AND binds tighter than OR and parentheses re-enter at OR (call-graph stratification), each level consumes its own token and builds a node of that type, trailing tokens are rejected, token<->operator pairing in scalarComparisonHolds/isComparisonOperator/tokenizer, OR=union with neutral false and AND=intersection with neutral true down to std::set_union/set_intersection, the complete 32-row decision table of ActionX::ready, run bookkeeping in State, and that ACTIONX objects are applied only when drawn from Actions::pending and that the run is then recorded. Not decided: evaluation against concrete summary states, wildcard matching, date arithmetic.",
         note="Trusted: documented ACTIONX condition syntax frozen in rules/C18.py. Python-driven and by-name application of actions are outside the triggering limits and are not subject to the gate rule.",
         design="DESIGN.md §4 C18"),
+    "C05": dict(
+        technique="static analysis: writer/reader table agreement over the clang ASTs of Aggregate{Well,Connection,Group,MSW}Data.cpp, rst/{well,connection,group,segment}.cpp and LoadRestart.cpp (slot, unit measure, summary vector, record index), with numeric equivalence classes of the measures taken from the UnitSystem tables and an index-provenance analysis for the segment records",
+        text="Decides the agreement of the restart writer's and reader's tables for the per-well, per-connection, per-group and per-segment arrays: every slot a load-bearing reader consumes is assigned by the writer; the measure the reader converts with is the measure the writer converted with, or the measure of the summary vector stored there (multisets, up to measures that have identical factors in all four unit systems); fields kept in output units flow only into UDAValue updates; the summary vector restored from an X* slot is the one stored there (derived vectors from the slots their definition names); slot names agree with the stored mnemonic; ISEG/RSEG records are written and fetched at segmentNumber()-1. NOT decided: value equality after a real save/load (precision, solution arrays, UDQ/ACTIONX state), agreement of well/group record order (loop position vs seqIndex(): a runtime invariant), and equivalence of the restarted schedule (Schedule::cmp).",
+        note="Trusted: mnemonic->measure and slot-name->mnemonic grammars in rules/C05.py; tables/c05_deferred.json, c05_reader_only.json, c05_positional.json (one reason per entry). A reader field nobody uses is reported as information, not as a violation.",
+        design="DESIGN.md §4 C05"),
     "C20": dict(
         technique="static analysis: call-graph closure of the parse/build/open entry points over the resolved ASTs of all library units; exception-type, terminator-reachability, noexcept/destructor-escape and catch-site completeness rules on that closure",
         text="Decides only the exception-discipline clause of the property (a necessary condition: breaking it turns an input error into process termination): in the closure of Parser::parse*, the EclipseState/Schedule/SummaryConfig constructors and the result-file readers, every throw expression throws a type derived from std::exception (or rethrows), no exit/abort/terminate call is reachable except the exits the caller configured (ParseContext EXIT1, ErrorGuard), no noexcept function or destructor contains a throw or calls a directly throwing repository function outside a try block, and the wrapping catch sites cover std::exception and rethrow a documented type. NOT decided: out-of-bounds access, iterator/string_view arithmetic, hangs, undefined behaviour - these are runtime properties (sanitizers, fuzzing) outside this technique.",
